@@ -193,6 +193,7 @@ class Harness:
     replay_libs: list = field(default_factory=list)
     extra_srcs: list = field(default_factory=list)  # additional TUs (repo-relative or absolute) linked in
     allow_nobody: list = field(default_factory=list)  # functions deliberately left without body (nondet result)
+    leak_check: bool = False        # replay with LeakSanitizer (harnesses whose subject is leaks)
     unwind_funcs: dict = field(default_factory=dict)  # {function name: bound} applied to every loop of that function (derived via --show-loops)
 
 
@@ -479,7 +480,7 @@ def write_replay(ctx, h, vals, tag):
     rc, out, err, _, _ = sh(cc + [path] + extra + ["-o", exe] + lib + NATIVE_LIBS + h.replay_libs, timeout=600)
     if rc != 0:
         return path, "build-failed", err[-1500:]
-    env = dict(os.environ, ASAN_OPTIONS="detect_leaks=1:abort_on_error=0:exitcode=43", UBSAN_OPTIONS="print_stacktrace=1")
+    env = dict(os.environ, ASAN_OPTIONS="detect_leaks=%d:abort_on_error=0:exitcode=43" % (1 if h.leak_check else 0), UBSAN_OPTIONS="print_stacktrace=1")
     rc, out, err, _, _ = sh([exe], timeout=120, env=env)
     if rc == 42 or "VF_ASSERT_FAILED" in err:
         return path, "reproduced", err[-800:]
